@@ -5,7 +5,39 @@ import graph_stream
 import props.C13 as c13
 
 
+def slice_indices_check(ctx):
+    """the Lean transcription of slice.indices / range (used by the slice
+    theorems C16_delSlice_* / C16_setSlice_*) against Python, exhaustively
+    for small lengths"""
+    import core
+    vals = [None] + list(range(-7, 8))
+    steps = [None, -3, -2, -1, 0, 1, 2, 3]
+    lines, want = [], []
+    for n in range(0, ctx.scale(5, 7)):
+        for a in vals:
+            for b in vals:
+                for c in steps:
+                    lines.append("sliceidx %d %s %s %s" % (
+                        n, "-" if a is None else a, "-" if b is None else b,
+                        "-" if c is None else c))
+                    try:
+                        want.append("[" + ",".join(str(x) for x in range(
+                            *slice(a, b, c).indices(n))) + "]")
+                    except ValueError:
+                        want.append("ValueError")
+    got = core.lean_batch("forest", lines)
+    ctx.evaluations += len(lines)
+    bad = [(l, w, g) for l, w, g in zip(lines, want, got) if w != g]
+    ctx.count("slice-indices-cases", len(lines))
+    if bad:
+        ctx.tie_broken.append("correspondence:slice.indices %r python=%s "
+                              "lean=%s" % bad[0])
+    else:
+        ctx.traces += len(lines)
+
+
 def run(ctx):
+    slice_indices_check(ctx)
     graph_stream.run(ctx)
     rule = ctx.rule
     c13.run(ctx)
